@@ -1,8 +1,8 @@
-// Command harness drives the real go-typ/typ code (module replaced by /repo,
+// Main is the entry point of every generated harness command: it drives the real go-typ/typ code (module replaced by /repo,
 // so it always compiles the current working tree) for one property and writes
 // the observed behaviour as Coq case files for the model, plus the verdicts of
 // the direct property oracles.
-package main
+package core
 
 import (
 	"encoding/json"
@@ -10,12 +10,9 @@ import (
 	"fmt"
 	"os"
 	"strconv"
-
-	"verif/harness/core"
-	_ "verif/harness/c13"
 )
 
-func main() {
+func Main() {
 	tier := flag.String("tier", "quick", "quick|thorough|search")
 	seed := flag.Uint64("seed", 0, "PRNG seed (default VERIF_SEED or 1)")
 	out := flag.String("out", "", "output directory")
@@ -26,7 +23,7 @@ func main() {
 		os.Exit(2)
 	}
 	id := flag.Arg(0)
-	p := core.Props[id]
+	p := Props[id]
 	if p == nil {
 		fmt.Fprintln(os.Stderr, "unknown property", id)
 		os.Exit(2)
@@ -41,7 +38,7 @@ func main() {
 	if *out == "" {
 		*out = "/verif/work/" + id
 	}
-	c := core.NewCtx(p, *tier, *seed, *out)
+	c := NewCtx(p, *tier, *seed, *out)
 	if *replay != "" {
 		b, err := os.ReadFile(*replay)
 		if err != nil {
